@@ -81,8 +81,10 @@ func (i *itemsValidator) Validate(index int, data interface{}) *Result {
 		}()
 	}
 
-	tpe := reflect.TypeOf(data)
-	kind := tpe.Kind()
+	kind := reflect.Invalid // a null item: only the type and enum checks apply
+	if tpe := reflect.TypeOf(data); tpe != nil {
+		kind = tpe.Kind()
+	}
 	var result *Result
 	if i.Options.recycleResult {
 		result = pools.poolOfResults.BorrowResult()
